@@ -134,7 +134,7 @@ def child_obs(oid, form, ptype, ctype, coutcome, wrap="plain", chooser_seed=None
 
 
 def mk_token(kind, exact):
-    if kind == "exact":
+    if kind in ("exact", "badoutput"):      # (badoutput: the right token, an output that is not JSON text)
         return exact
     if kind == "truncated":
         return exact[:-6]
@@ -176,7 +176,7 @@ def token_obs(oid, calls, worker_reply):
     for j, (api, tkind, payload) in enumerate(calls):
         token = mk_token(tkind, tok) if tok else "none"
         if api == "success":
-            st, body = w.api("SendTaskSuccess", {"taskToken": token, "output": json.dumps(payload)})
+            st, body = w.api("SendTaskSuccess", {"taskToken": token, "output": "{not json" if tkind == "badoutput" else json.dumps(payload)})
             tcalls.append({"api": api, "token": tkind, "out": tagged.enc(payload), "error": ""})
         else:
             st, body = w.api("SendTaskFailure", {"taskToken": token, "error": payload, "cause": "because"})
@@ -292,6 +292,7 @@ def run(tier_name=None, replay=None):
         [("success", "exact", {"first": 1}), ("success", "exact", {"second": 2})],
         [("failure", "exact", "E1"), ("success", "exact", {"late": 1})],
         [("success", "forged", {"x": 0})],
+        [("success", "badoutput", {"x": 0}), ("success", "exact", {"done": 4})],
         [("failure", "garbage", "E0")],
         [("success", "truncated", {"x": 1})],
     ]
